@@ -3,11 +3,12 @@ from ..core.model import Program
 from ..core.report import CheckContext
 from ..core.resolve import Resolver
 from ..rules import inval, tables
-from .common import run_control
+from .common import run_control, generic_rules
 
 
 def analyse(ctx: CheckContext, p: Program):
     r = Resolver(p)
+    generic_rules(ctx, p, r, "C07")
     eng = inval.InvalEngine(p, r)
     ctx.info["buffer_replacing_methods"] = {k: ("changes rows" if v else "same rows") for k, v in sorted(eng.events.items())}
     ctx.info["functions_that_may_insert_rows"] = sorted(f"{f.qualname}({', '.join(k + ':' + v for k, v in sm.items())})" for f, sm in eng.summary.items() if sm)
